@@ -38,8 +38,8 @@ def interior_mutants(b: bytes) -> t.Iterator[t.Tuple[str, int, bytes]]:
             yield label, idx, data
 
 
-def deliver(role: str, data: bytes, chunks: t.List[bytes]) -> t.Tuple[t.Optional[t.Tuple[str, str]], str]:
-    s = c05.make_session(role, "open-outstanding")
+def deliver(role: str, data: bytes, chunks: t.List[bytes], state: str = "open-outstanding") -> t.Tuple[t.Optional[t.Tuple[str, str]], str]:
+    s = c05.make_session(role, state)
     got = 0
     delivered = 0
     for ch in chunks:
@@ -142,12 +142,23 @@ def run(ctx: evid.Ctx) -> None:
         one = FOLLOW[role].pack(K.OPTS)
         for count in (2, 3, 100, 1023, 1024, 1025, 2048, 5000):
             data = one * count
-            for chunks in ([data], [data[:7], data[7:]], [data[: len(data) // 2 + 3], data[len(data) // 2 + 3 :]]):
+            fixed = [[data[p : p + size] for p in range(0, len(data), size)] for size in ((1000, 4096, 333, 1460) if count >= 1000 else (7,))]
+            for chunks in [[data], [data[:7], data[7:]], [data[: len(data) // 2 + 3], data[len(data) // 2 + 3 :]]] + fixed:
                 ctx.add("transitions", len(chunks))
                 v, outcome = deliver(role, data, chunks)
                 if v:
-                    ctx.violation(f"{v[0]}:{role}:many-pdus-per-call", v[1] + f" [{count} PDUs in {len(chunks)} chunk(s)]", {"role": role, "data": one.hex(), "repeat": count, "chunks": [len(c) for c in chunks]})
+                    ctx.violation(f"{v[0]}:{role}:many-pdus-per-call", v[1] + f" [{count} PDUs in {len(chunks)} chunk(s)]", {"role": role, "data": one.hex(), "repeat": count, "chunks": [len(c) for c in chunks] if len(chunks) < 50 else [len(chunks[0])] * len(chunks)})
             ctx.add("states")
+    # a search that asked for one entry and a peer that sends three: every complete PDU is still accounted for
+    for role in ("client", "server"):
+        one = FOLLOW[role].pack(K.OPTS)
+        data = one * 3
+        for mname, chunks in modes(data, True):
+            ctx.add("transitions", len(chunks))
+            v, outcome = deliver(role, data, chunks, "open-limited")
+            if v:
+                ctx.violation(f"{v[0]}:{role}:size-limited-search", v[1] + f" [3 entries for a search with sizeLimit 1; {mname}]", {"role": role, "data": data.hex(), "state": "open-limited", "chunks": "bytewise" if mname == "bytewise" else [c.hex() for c in chunks]})
+        ctx.add("states")
     # every protocolOp identifier a peer may send ([APPLICATION 0..31], both forms), known to the library or not
     for role in ("server", "client"):
         for num in range(0, 32):
@@ -196,7 +207,7 @@ def replay(case: t.Dict[str, t.Any], key: t.Optional[str] = None) -> t.Tuple[boo
         return (v is None), f"{case['repeat']} PDUs in {len(chunks)} chunk(s) -> {outcome}" + (f"\n  {v[0]}: {v[1]}" if v else "")
     data = bytes.fromhex(case["data"])
     chunks = [data[i : i + 1] for i in range(len(data))] if case["chunks"] == "bytewise" else [bytes.fromhex(c) for c in case["chunks"]]
-    v, outcome = deliver(case["role"], data, chunks)
+    v, outcome = deliver(case["role"], data, chunks, case.get("state", "open-outstanding"))
     units, _ = ber.frame(data)
     txt = f"{case['role']}: stream of {len(data)} bytes holding {len(units)} complete PDU(s), {len(chunks)} chunk(s) -> {outcome}"
     return (v is None), txt + (f"\n  {v[0]}: {v[1]}" if v else "")
